@@ -141,7 +141,7 @@ func parseReq(p *tk) *models.ChfConvergedChargingChargingDataRequest {
 	if p.i() == 1 {
 		r.NotifyUri = sinkURL + "/n/" + r.SubscriberIdentifier
 	}
-	r.OneTimeEvent = p.i() == 1
+	applyCreateFlags(r, p.i()) // bit 0: oneTimeEvent; bits 1, 2: contents that OpenCDR refuses (chf_events.go)
 	now := time.Now()
 	r.InvocationTimeStamp = &now
 	nt := int(p.i())
@@ -513,6 +513,10 @@ func fmtReq(supi, nf string, cid, seq int, uri, one int, trigs []string, usages 
 }
 
 func genChf(o genOpts, w *bufio.Writer) {
+	if gen, ok := chfGenModes[o.mode]; ok {
+		gen(o, w) // generator variants that live in files of their own (chf_events.go, ...)
+		return
+	}
 	r := &rng{s: o.seed}
 	lsn := 0
 	// the generator mirrors the session id rule (supi+nf+counter) only to address requests; the real
